@@ -61,6 +61,15 @@ func runStartFault(w *tr.Writer, seed uint64, idx int) {
 	default:
 		addr = fmt.Sprintf("tcp://127.0.0.1:%d", freePort())
 	}
+	// a third of the server cases listen on two addresses (Rotate): the second one a Unix socket
+	addr2, unixPath2 := "", ""
+	if !client && rnd.Chance(33) {
+		pcount++
+		unixPath2 = fmt.Sprintf("/var/tmp/vloop-sf2-%d-%d.sock", os.Getpid(), pcount)
+		os.Remove(unixPath2)
+		defer os.Remove(unixPath2)
+		addr2 = "unix://" + unixPath2
+	}
 	w.Case(fmt.Sprintf("SF%d", idx), "loopstart", "proto="+proto, "loops="+tr.I(loops), "reuseport="+tr.B(reuseport),
 		"client="+tr.B(client), "fault="+name, "index="+tr.I(index), "kind="+kind, "focus=startfault", "seed="+tr.U64(seed), "idx="+tr.I(idx))
 	h := &bootOnly{booted: make(chan struct{})}
@@ -79,6 +88,10 @@ func runStartFault(w *tr.Writer, seed uint64, idx int) {
 		done <- err
 	} else {
 		go func() {
+			if addr2 != "" {
+				done <- gnet.Rotate(h, []string{addr, addr2}, gnet.WithNumEventLoop(loops), gnet.WithReusePort(reuseport))
+				return
+			}
 			done <- gnet.Run(h, addr, gnet.WithNumEventLoop(loops), gnet.WithReusePort(reuseport))
 		}()
 		select {
@@ -101,7 +114,10 @@ func runStartFault(w *tr.Writer, seed uint64, idx int) {
 	select {
 	case err = <-done:
 	case <-time.After(5 * time.Second):
+		// (the descriptor checks below are meaningless while Run is still running: only the stall is reported)
 		w.Fail("engine-start", "run-did-not-return", "Run / Client.Start+Stop did not return within 5 s after a failing start")
+		w.End()
+		return
 	}
 	rec.mu.Lock()
 	hit := rec.startFaultHit
@@ -113,9 +129,11 @@ func runStartFault(w *tr.Writer, seed uint64, idx int) {
 		w.Fail("fd-leak", kindOf, fmt.Sprintf("descriptor %d (%s) still open after a start in which %s #%d %s (hit=%v, started=%v, err=%v)", fd, kindOf, name, index, kind, hit, started, err))
 	}
 	rec.mu.Unlock()
-	if unixPath != "" && !client {
-		if _, e := os.Lstat(unixPath); e == nil {
-			w.Fail("fd-leak", "unix-socket-file", "the listener's socket file still exists after Run returned")
+	for _, up := range []string{unixPath, unixPath2} {
+		if up != "" && !client {
+			if _, e := os.Lstat(up); e == nil {
+				w.Fail("fd-leak", "unix-socket-file", "the listener's socket file still exists after Run / Rotate returned")
+			}
 		}
 	}
 	if hit {
@@ -126,6 +144,9 @@ func runStartFault(w *tr.Writer, seed uint64, idx int) {
 	}
 	if started {
 		w.Hist("startfault-engine-started")
+	}
+	if addr2 != "" {
+		w.Hist("startfault-rotate")
 	}
 	_ = net.IPv4zero
 	w.End()
